@@ -559,7 +559,9 @@ def data_screen(fn, data_id, size_id, call_block):
         rejects = False
         for y in walk(loop.get('body')):
             if isinstance(y, dict) and y.get('k') == 'IfStmt':
-                m = [z for z in walk(y.get('cond')) if isinstance(z, dict) and z.get('k') == 'BinaryOperator' and z.get('op') == '&' and 0x80 in (const_of(z['l']), const_of(z['r']))]
+                m = [z for z in walk(y.get('cond')) if isinstance(z, dict) and z.get('k') == 'BinaryOperator' and (
+                     (z.get('op') == '&' and 0x80 in (const_of(z['l']), const_of(z['r']))) or
+                     (z.get('op') == '>=' and const_of(z['r']) == 0x80) or (z.get('op') == '>' and const_of(z['r']) == 0x7F))]
                 sub = [z for z in walk(y.get('cond')) if isinstance(z, dict) and z.get('k') == 'ArraySubscriptExpr' and strip(z['b']).get('id') == data_id and strip(z['i']).get('id') == iv]
                 ret = [z for z in walk(y.get('then')) if isinstance(z, dict) and z.get('k') == 'ReturnStmt' and const_of(z.get('e')) == 0]
                 if m and sub and ret:
